@@ -99,6 +99,13 @@ let () =
          | Datatypes.Coq_inr i -> print_endline ("panic_at " ^ string_of_int (int_of_n i))
          | Datatypes.Coq_inl (a, b) ->
            print_endline (show a ^ " | " ^ (match b with None -> "-" | Some x -> show x)))
+      | ["status"; raw] ->
+        (* Lib/Status.v: what posix.rs decode_exit_status makes of a raw wait status *)
+        print_endline (match Status.decode_exit_status (n_of_int (int_of_string raw)) with
+            | Status.Exited c -> Printf.sprintf "exited:%d" (int_of_n c)
+            | Status.Signaled g -> Printf.sprintf "signaled:%d" (int_of_n g)
+            | Status.Other r -> Printf.sprintf "other:%d" (int_of_n r)
+            | Status.Undetermined -> "undetermined")
       | ["c13"; stages; shape; pin; pout; errfile; failk; mode] ->
         (* stages: argv|argv|... ; shape: left | iter | cat:<k> ; pin: N|P|F<id>|D<units> ; pout: N|P|F<id> ;
            errfile: 0|1 ; failk: -1|k ; mode: popen | comm *)
